@@ -353,6 +353,10 @@ def canon_impl(r: dict) -> dict:
     return {
         'root': tuple(r['root']),
         'nodes': nodes,
+        'kids': {tuple(n['key']): [tuple(c) for c in n['children']] for n in r['nodes']},     # order of get_nested_namespaces()
+        'all_seq': [(x[0], tuple(x[1]) if x[0] == 'N' else tk(x[1]), tuple(x[2])) for x in r['all']],
+        'dt_seq': [(tk(t), tuple(p)) for t, p in r['datatypes']],
+        'ns_seq': [(tuple(k), tuple(p)) for k, p in r['namespaces']],
         'all': collections.Counter((x[0], tuple(x[1]) if x[0] == 'N' else tk(x[1]), tuple(x[2])) for x in r['all']),
         'datatypes': collections.Counter((tk(t), tuple(p)) for t, p in r['datatypes']),
         'namespaces': collections.Counter((tuple(k), tuple(p)) for k, p in r['namespaces']),
@@ -382,6 +386,9 @@ def oracle_diff(r: dict, file_fold: bool) -> typing.List[str]:
             out.append('types of %r: %r, expected %r' % (k, [t for t, _ in n['types']], e['types']))
         if n['path'] != e['path']:
             out.append('namespace path of %r: %r, expected %r' % (k, n['path'], e['path']))
+    for n in r['nodes']:
+        if n['children'] != sorted(n['children']):     # get_nested_namespaces(): name order (Python list-of-str comparison)
+            out.append('get_nested_namespaces() of %r is not in name order: %r' % (n['key'], n['children']))
     for n in r['nodes']:
         if tuple(n['root_from_here']) != o['root']:
             out.append('get_root_namespace from %r = %r' % (n['key'], n['root_from_here']))
@@ -476,7 +483,9 @@ def dec_ty(s: str) -> tuple:
     return (dec_key(k), dec(sh), int(ma), int(mi))
 
 
-MODES = [(0, 0), (1, 1), (2, 3), (3, 2), (4, 0)]   # the last one replays the linking order observed on the implementation
+# (perm mode, cperm mode): the linking order varies (identity, reverse, sorted, reverse sorted, as observed on the implementation);
+# the children are visited in the model's sort_keys order = Namespace.get_nested_namespaces of the current code (fix 9b93945)
+MODES = [(0, 5), (1, 5), (2, 5), (3, 5), (4, 5)]
 
 
 def model_input(r: dict, mode, prefix_quirk: bool = False) -> str:
@@ -495,7 +504,7 @@ def model_input(r: dict, mode, prefix_quirk: bool = False) -> str:
 
 def parse_model(block: typing.List[str]) -> dict:
     res = {'root': None, 'nodes': {}, 'all': collections.Counter(), 'datatypes': collections.Counter(), 'namespaces': collections.Counter(),
-           'find': {}, 'make_path': {}, 'rel': {}, 'err': None, 'all_seq': [], 'fold': None}
+           'find': {}, 'make_path': {}, 'rel': {}, 'err': None, 'all_seq': [], 'dt_seq': [], 'ns_seq': [], 'kids': {}, 'fold': None}
     for l in block:
         t = l.split(' ')
         if t[0] == 'ROOT':
@@ -506,15 +515,20 @@ def parse_model(block: typing.List[str]) -> dict:
             res['nodes'][dec_key(t[1])] = {'parent': dec_key(t[2]) if t[2] != '-' else None,
                                           'children': sorted(dec_key(c) for c in t[3].split(';')) if t[3] != '-' else [],
                                           'types': [], 'path': dec_key(t[4])}
+        elif t[0] == 'KIDS':
+            res['kids'][dec_key(t[1])] = [dec_key(c) for c in t[2].split(';')] if t[2] != '-' else []
         elif t[0] == 'NTY':
             res['nodes'][dec_key(t[1])]['types'].append((dec_ty(t[2]), dec_key(t[3])))
         elif t[0] == 'ALL':
             item = (t[1], dec_key(t[2]) if t[1] == 'N' else dec_ty(t[2]), dec_key(t[3]))
             res['all'][item] += 1
+            res['all_seq'].append(item)
         elif t[0] == 'DT':
             res['datatypes'][(dec_ty(t[1]), dec_key(t[2]))] += 1
+            res['dt_seq'].append((dec_ty(t[1]), dec_key(t[2])))
         elif t[0] == 'NSP':
             res['namespaces'][(dec_key(t[1]), dec_key(t[2]))] += 1
+            res['ns_seq'].append((dec_key(t[1]), dec_key(t[2])))
         elif t[0] == 'FIND':
             res['find'][(dec_key(t[1]), dec_ty(t[2]))] = dec_key(t[3]) if t[3] != 'NONE' else None
             if t[3] != 'NONE':
@@ -582,6 +596,14 @@ def model_diff(m: dict, c: dict) -> typing.List[str]:
             out.append('%s differ' % key)
     if mf != c['find']:
         out.append('find differ')
+    # ORDER (fix 9b93945): get_nested_namespaces() and the three recursive enumerations, element by element
+    mk = {k: v for k, v in m['kids'].items() if k in c['kids']}
+    if mk != c['kids']:
+        bad = [k for k in c['kids'] if mk.get(k) != c['kids'][k]]
+        out.append('order of get_nested_namespaces() differs at %r: model %r impl %r' % (bad[0], mk.get(bad[0]), c['kids'][bad[0]]))
+    for key in ['all_seq', 'dt_seq', 'ns_seq']:
+        if not out and m[key] != c[key]:
+            out.append('enumeration order differs (%s)' % key)
     return out
 
 
@@ -760,6 +782,7 @@ def main(chk: core.Check, replay: typing.Optional[str] = None) -> int:
             multi = len({(tuple(t[0]), t[1]) for t in r['order']}) < len(r['order'])
             stats['with_empty_intermediate_ns'] += bool(empty)
             stats['with_stropped_names'] += stropped
+            stats['with_node_of_several_children_order_compared'] += any(len(n['children']) > 1 for n in r['nodes'])
             stats['with_name_where_id_type_any_differs_from_path'] += any(r.get('strop_any', {}).get(a, b) != b for a, b in r['strop'].items())
             stats['with_several_versions'] += multi
             stats['max_depth'] = max(stats['max_depth'], max(len(k) for k in nodes))
